@@ -722,4 +722,30 @@ def read_copy_write_sites(func_node: ast.AST) -> list[tuple[ast.AST, str, str]]:
                 locked = any(isinstance(x, (ast.With, ast.AsyncWith)) and any("lock" in ast.unparse(i.context_expr).lower() for i in x.items) for x in ancestors(pm, n))
                 if not locked:
                     out.append((n, a, src))
+    # the same over the whole container: `tmp = dict(self.X); ...; self.X = tmp` / `self.X = [.. for .. in self.X ..]`
+    def reads_whole(v: ast.AST, attr: str) -> bool:
+        return any(isinstance(x, ast.Attribute) and isinstance(x.ctx, ast.Load) and isinstance(x.value, ast.Name) and x.value.id == "self" and x.attr == attr for x in ast.walk(v))
+
+    whole: dict[str, set[str]] = {}
+    for n in walk_no_nested(func_node):
+        if isinstance(n, ast.Assign) and len(n.targets) == 1 and isinstance(n.targets[0], ast.Name):
+            for x in ast.walk(n.value):
+                if isinstance(x, ast.Attribute) and isinstance(x.value, ast.Name) and x.value.id == "self" and isinstance(x.ctx, ast.Load):
+                    whole.setdefault(n.targets[0].id, set()).add(x.attr)
+    for n in walk_no_nested(func_node):
+        if not isinstance(n, ast.Assign):
+            continue
+        for t in n.targets:
+            if isinstance(t, ast.Attribute) and isinstance(t.value, ast.Name) and t.value.id == "self":
+                a = t.attr
+                src = None
+                if isinstance(n.value, ast.Name) and a in whole.get(n.value.id, ()):
+                    src = n.value.id
+                elif not isinstance(n.value, ast.Name) and reads_whole(n.value, a):
+                    src = "<expression>"
+                if src is None:
+                    continue
+                locked = any(isinstance(x, (ast.With, ast.AsyncWith)) and any("lock" in ast.unparse(i.context_expr).lower() for i in x.items) for x in ancestors(pm, n))
+                if not locked:
+                    out.append((n, a, src))
     return out
